@@ -1020,10 +1020,12 @@ def run_set_cases(ctx, groups, with_model=True, source="generated"):
 
 def one_set_case(ctx, cls, arg, kind, vd, depth, W0, impl, lines, impls, metas, source):
     rng_via = (len(lines) % 3 == 0)
+    # third public entry point: copyconfig(cfg, x=v) (it lifts the read-only restriction by design: not used for constants / generated)
+    via_copy = (len(lines) % 7 == 3) and not arg.get("constant") and not arg.get("generator")
     w = W0.fresh()
     t = arg["ty"]
     vdm = with_mro(vd, S_MROS)
-    case = {"op": "set", "arg": arg_line(arg), "argd": arg, "v": vdm, "kind": kind, "via": "setattr" if rng_via else "ctor"}
+    case = {"op": "set", "arg": arg_line(arg), "argd": arg, "v": vdm, "kind": kind, "via": "copyconfig" if via_copy else ("setattr" if rng_via else "ctor")}
     try:
         v = build(vd, w)
     except Exception as e:  # not a buildable candidate
@@ -1031,7 +1033,10 @@ def one_set_case(ctx, cls, arg, kind, vd, depth, W0, impl, lines, impls, metas, 
         return
     out, stored_d = None, None
     try:
-        if rng_via:
+        if via_copy:
+            from experimaestro import copyconfig
+            o = copyconfig(cls(), x=v)
+        elif rng_via:
             o = cls()
             o.x = v
         else:
@@ -1078,6 +1083,7 @@ def one_set_case(ctx, cls, arg, kind, vd, depth, W0, impl, lines, impls, metas, 
     nt = ty_depth(t) >= 1 and (kind in ("conforming", "mutated"))
     ctx.case(case, nt)
     ctx.count("set_kind", kind)
+    ctx.count("set_via", case["via"])
     ctx.count("set_outcome", out["r"] if out["r"] == "ok" else out["e"])
     ctx.count("type_depth", ty_depth(t))
     if kind == "mutated":
